@@ -244,7 +244,7 @@ _ADD4 = {
  "C14": " (the observation loop stops after three watchdog hits)",
  "C15": " + a Set of nested objects",
  "C16": " + bindings compared exactly as reported",
- "C18": " + the bytes written by the library's own writers on a recording socket against the RFC 6455 encoding, for random masking keys",
+ "C18": " + the bytes written by the library's own writers on a recording socket against the RFC 6455 encoding, for random masking keys + a scripted fragmented client message (open finding ws-continuation-frame-desync)",
  "C19": " + the two length bytes edited together, digests truncated together with their length byte, damage that a lenient base64 reader skips",
 }
 for _k, _t in _ADD4.items():
